@@ -46,7 +46,7 @@ add("C12", "enum", "bounded-exhaustive enumeration of label strings and (package
     "label.Parse on every string of length <=7 (quick) / <=8 (thorough) over {a,b,:,/,.,@}; for every accepted label with a name or without a kind: print/re-parse identity, global canonical-print table (equal prints <=> equal labels), the same after RelativeTo against three packages; repoSourcePath/sourceLabel on every path of length <=8 (<=10) over {a,/,.,:} against three packages compared with a component-stack resolver (accepted => resolves inside the root at the reference location; escaping => rejected). The record path derived from every accepted label (targets and sources) must stay below the build-state directory and be injective over the whole enumerated set. No panics anywhere.",
     "Trusts the reference resolver and the field-wise label equality; lexical confinement only (symlinks out of scope, as in the code).", "DESIGN.md section 5 C12")
 add("C15", "enum", "bounded-exhaustive enumeration of byte strings and single-fault corruptions through the real decoder; fault enumeration over record files through Load/Run",
-    "All byte strings of length <=3 over all 256 values (16.8M), all strings of length 4 (5) over 38 opcode/operand bytes, all opcode sequences of <=5 (6) operations over a 21-op core, and every truncation/deletion/substitution/insertion of six valid encodings (including two real function environments), each decoded with no unpickler and with dawn's environment unpickler: Decode must return, never panic, never return (nil,nil), and the value must be printable/hashable/freezable/comparable. Record-file corruptions through Load/Run are enumerated by the same harness.",
+    "All byte strings of length <=3 over all 256 values (16.8M), all strings of length 4 (5) over 38 opcode/operand bytes, all opcode sequences of <=5 (6) operations over a 27-op core (incl. explicit-id memo opcodes), and every truncation/deletion/substitution/insertion of six valid encodings (including two real function environments), each decoded with no unpickler and with dawn's environment unpickler: Decode must return, never panic, never return (nil,nil), and the value must be printable/hashable/freezable/comparable. Record-file corruptions through Load/Run are enumerated by the same harness.",
     "Precondition of the property honoured conservatively (inputs with a 4-byte length field larger than the input are skipped and counted).", "DESIGN.md section 5 C15")
 add("C19", "enum", "bounded-exhaustive enumeration of configurations, round-trip oracle",
     "Every string of length <=3 (<=4 thorough) over a 13-symbol alphabet (quotes, backslash, newline, tab, CR, NUL, #, =, non-ASCII) in each field separately, all pairs/triples of fields with shorter strings, every ASCII character in every field, path x version tables incl. versioned paths, all subsets of <=3 of 21 requirement keys, ignore lists: WriteConfigFile then LoadConfigFile must give back the configuration, and writing it again identical bytes. Failing configurations are delta-debugged to a cause signature.",
